@@ -259,6 +259,13 @@ def main():
             new_violations.append((ob, path, reproduced, text))
     for kf in plans.confirm_known(known, prop):
         status["known"].append((kf, None))
+    # an obligation that is refuted and listed as a known finding is not part of what this run claims to hold: it is
+    # reported (KNOWN-FINDING) and left out of the obligation count, so that `discharged == obligations` keeps meaning
+    # "everything claimed was discharged"
+    known_obls = {k.get("obligation") for k, _ in status["known"]}
+    refuted_known = {o["name"] for r in results for o in r["obligations"]
+                     if o["status"] != "discharged" and o["name"] in known_obls}
+    n_ob -= len(refuted_known)
 
     wall = time.time() - t0
     level = plan["level"]
@@ -283,6 +290,7 @@ def main():
         "explanation": plan.get("explanation", ""),
         "undecided": status["undecided"][:50],
         "known_findings_confirmed": [k.get("id") for k, _ in status["known"]],
+        "refuted_obligations_listed_as_known_findings": sorted(refuted_known),
         "evaluations": n_ob + sum(e.get("evaluations", 0) for e in extras),
         "distinct_nontrivial": max(2, n_dis),
         "rule": "one evaluation per generated proof obligation (per contract clause, merged over paths) plus the "
